@@ -21,7 +21,7 @@ RULE = ('random expression trees of depth 1..6 over + - neg abs *k k* /k %k with
         'exactly denoted values (1e-8" + 4 ulp), result class = class of the angle operand; comparisons judged where operands '
         'differ by more than 1e-8" and checked for mutual consistency always; round(a, n) moves the value by at most half a '
         'unit of the place; every angle operand is copied before the operator runs, is judged on that copy, and must still denote the same angle afterwards; whole-tree result compared with the shadow evaluation within the propagated tolerance. '
-        'distinct = (class, operator, operand-class, sign/zero class) buckets')
+        'distinct = (class, operator, operand-class, sign/zero class) buckets Every fourth binary node is written as an augmented assignment with a second binding of the left operand held and compared; every operator result that derives from float must have the float value its field holds.')
 ASSUMPTIONS = ['angle_exact gives the denoted value of every operand/result from the stored fields (exact rationals)',
                'comparisons closer than the 1e-8" resolution may answer either way (DESIGN.md section 5)']
 REQUIRED_COUNTERS = ['operand_snapshots_compared', 'augmented_assignments', 'float_base_of_result_compared', 'rounding_carry_cases', 'modulus_equal_to_angle', 'carried_fields_modulo_cases', 'numpy_scalar_operands', 'round_then_mod_sequences', 'op:add', 'op:sub', 'op:radd', 'op:rsub', 'op:mul', 'op:rmul', 'op:truediv', 'op:neg', 'op:abs', 'op:mod', 'op:eq', 'op:lt',
